@@ -257,7 +257,14 @@ def make_objects(rng, i):
         return s.landmarks, "LandmarkManager", d
     arrs = [rng.normal(size=3) for _ in range(int(rng.integers(0, 5)))]
     ll = LazyList.init_from_iterable(arrs)
-    return (ll.map(lambda x: x * 2) if rng.random() < 0.5 else ll), "LazyList", 0
+    ll = ll.map(lambda x: x * 2) if rng.random() < 0.5 else ll
+    if rng.random() < 0.6:
+        # what importers and users hang on a lazy list (menpo's video importer attaches fps ...): frame times, a region of interest
+        import menpo.shape as ms
+        ll.fps = 25.0
+        ll.timestamps = rng.normal(size=max(1, len(arrs)))
+        ll.roi = ms.PointCloud(rng.normal(size=(4, 2)))
+    return ll, "LazyList", 0
 
 
 def perturb(buf):
